@@ -2567,8 +2567,8 @@ Proof.
   unfold bit_at at 1. cbn [r_src mk_r]. rewrite Hbit. cbn [bind].
   pose proof Hs as Hs0. apply rsrc_split in Hs. destruct Hs as [Hs1 Hs2].
   rewrite (normally_small_read m (nx - 1) s' _ Hv (proj1 Hs1)).
-  rewrite uadd_ok by (unfold two64, SIZE_LIMIT in *; lia). cbn [bind r_src r_set_src mk_r].
-  replace (nx - 1 + 1) with nx by lia.
+  cbn [bind r_src r_set_src mk_r].
+  replace (N.min (nx - 1 + 1) (two64 - 1)) with nx by (unfold two64, SIZE_LIMIT in *; lia).
   set (ns := x_normally_small (nx - 1)) in *.
   match goal with |- context [src_set_pos ?S1 _] => set (s1 := S1) end.
   change (s_pos s1) with (s_pos s' + bl ns).
